@@ -117,7 +117,7 @@ def expr(form, refs):
 
 
 def render(prog, form1="plain", form2="arith", as_kw=True, qualify=None, join="join", paren_source=False, spell=None, cte=False,
-           inner_join=None, where_sub=None, merge_insert=True, scalar_form="plain"):
+           inner_join=None, where_sub=None, merge_insert=True, scalar_form="plain", target_in_where=False):
     """spell: statement-local alias -> the text it is written as (renaming of statement-local names, C08);
     cte: derived tables are written as CTEs and read without an alias; inner_join: the FROM of every derived table joins one
     more table, read under that name (inner columns are then qualified with the inner table's bare name)"""
@@ -180,6 +180,9 @@ def render(prog, form1="plain", form2="arith", as_kw=True, qualify=None, join="j
         return "%supdate %stgt set %s from %s%s" % ("with " + ", ".join(ctes) + " " if ctes else "", qualify + "." if qualify else "",
                                                  ", ".join(sets), "".join(fr), w)
     sel = "select %s from %s" % (", ".join(its), "".join(fr))
+    if target_in_where and not prog["branch2"] and prog["kind"] in ("insert", "insert_cols"):
+        # the incremental-load idiom: the target is read as well, INSERT INTO tgt SELECT ... WHERE 1 NOT IN (SELECT zc FROM tgt)
+        sel += " where 1 not in (select zc from %s)" % ("s.tgt" if prog.get("tk") else (qualify + "." if qualify else "") + "tgt")
     if prog["branch2"]:
         b = prog["branch2"][0]
         if b.get("al", "none") != "none" and cte:
